@@ -1537,7 +1537,7 @@ func nontrivial(in *Input) bool {
 func TestC07(t *testing.T) {
 	zerologger.Logger = zerolog.New(io.Discard)
 	col := NewCollector("C07", "Check.C07",
-		"one call of one of the 14 strategies with 1-6 scripted nodes (content, error, silence; latencies around the soft and hard timeouts) in a synctest bubble; non-trivial = at least one node answers with content before the hard timeout; distinct by full input text")
+		"one call of one of the 14 strategies with 1-6 scripted nodes (content, error, silence; latencies around the soft and hard timeouts; answers for another slot) in a synctest bubble, alone or as one of 2-4 calls in a row on one service instance (one case per call, with the calls made before it); non-trivial = at least one node answers with content before the hard timeout; distinct by full input text")
 	n := EnvInt("VERIF_N", 1500)
 	var ins []Input
 	for _, in := range LoadInputs[Input]("C07") {
